@@ -131,12 +131,12 @@ func (r *runner) checkAll() {
 		if p.open && p.epoch == r.epoch {
 			if p.p.Aof && p.p.X <= r.right {
 				want := int(r.right - p.p.X)
-				if !p.p.WaitLen(want, 10*time.Second) {
+				if !p.p.WaitProgress(want, 10*time.Second, 120*time.Second) {
 					_, done, err := p.p.Snapshot()
 					if done {
 						r.fail("live-reader-ended", fmt.Sprintf("reader %d (opened at %d, cache range [%d,%d]) ended with %v after %d of %d available bytes although nothing invalidated it", i, p.p.X, r.left, r.right, err, p.p.Len(), want))
 					} else {
-						r.inconc = fmt.Sprintf("reader %d (opened at %d) delivered %d of %d available bytes within 10 s", i, p.p.X, p.p.Len(), want)
+						r.inconc = fmt.Sprintf("reader %d (opened at %d) delivered %d of %d available bytes and then nothing for 10 s", i, p.p.X, p.p.Len(), want)
 					}
 				}
 				if p.p.Len() > want {
@@ -146,7 +146,7 @@ func (r *runner) checkAll() {
 					r.facts["reader-crossed-rotation"] = true
 				}
 			} else if !p.p.Aof {
-				if !p.p.WaitLen(int(p.p.RdbSize), 10*time.Second) {
+				if !p.p.WaitProgress(int(p.p.RdbSize), 10*time.Second, 120*time.Second) {
 					r.inconc = fmt.Sprintf("snapshot reader %d delivered %d of %d bytes within 10 s", i, p.p.Len(), p.p.RdbSize)
 				}
 			}
